@@ -123,8 +123,8 @@ theorem other_dead (hs : LSetupOk L) {i : Nat} (hT : (i, true) ∈ L.T) (h : L.o
   cases hsk : L.cfg.skip i with
   | false => rfl
   | true =>
-    simp only [LSetup.otherB, hsk, Bool.not_true, Bool.false_or, LSetup.deadB] at h
-    exact absurd (by simpa using h) (hs.func i hT)
+    simp only [LSetup.otherB, hsk, Bool.not_true, Bool.false_or, LSetup.deadB, Bool.and_eq_true] at h
+    exact absurd (by simpa using h.1.1) (hs.func i hT)
 
 end helpers
 
@@ -257,7 +257,7 @@ theorem lstep_assign (hd : P.dscope = L.ds) (hs : LSetupOk L) (ih : LSim P L n)
     simp only []
     have hst := hok.2
     simp only [Bool.and_eq_true, LSetup.ownStoreB, beq_iff_eq] at hst
-    obtain ⟨_, ⟨hw, hdecl⟩, _⟩ := hst
+    obtain ⟨_, ⟨⟨hw, hdecl⟩, _⟩, _⟩ := hst
     cases hl : L.ds l with
     | none => simp [hl] at hdecl
     | some tg =>
@@ -307,7 +307,7 @@ theorem lstep_assignExisting (hd : P.dscope = L.ds) (hs : LSetupOk L) (ih : LSim
     split at hst
     · -- own variable
       simp only [Bool.and_eq_true, LSetup.ownStoreB, beq_iff_eq, Bool.false_eq_true, ↓reduceIte] at hst
-      obtain ⟨⟨hw, hin⟩, _⟩ := hst
+      obtain ⟨⟨⟨hw, hin⟩, _⟩, _⟩ := hst
       obtain ⟨tg, hl, hin⟩ := inTags_iff.mp hin
       have hasg := erel_assign_top (v := v) hrel'.2.2 hl hin ha.nodup (by
         intro M hM hMl
@@ -834,7 +834,7 @@ theorem ownStore_skipped (hs : LSetupOk L) {f i : Nat} {σ : List (Option Nat)} 
     L.c.writes i = [l] ∧ L.q f e = true ∧ (l ∉ st.live ∨ L.D2 l = true) ∧ (isDecl = true → noRefListB L.c l rest = true) ∧
       (isDecl = false → ∃ tg, L.ds l = some tg ∧ some tg ∈ σ) := by
   simp only [LSetup.ownStoreB, Bool.and_eq_true, beq_iff_eq, hsk, Bool.not_true, Bool.false_or, Bool.or_eq_true] at h
-  obtain ⟨⟨hw, htag⟩, hrule⟩ := h
+  obtain ⟨⟨⟨hw, htag⟩, _⟩, hrule⟩ := h
   rcases hrule with hdead | hrule
   · simp only [LSetup.deadB] at hdead
     exact absurd (by simpa using hdead) (hs.func i hT)
